@@ -176,6 +176,10 @@ def run(report, index, tier):
     from . import c14
     c14.rules(report, index)
     sourcepath_rule(report, index, 'R08.5')
+    from .c11 import direct_token_map_rule
+    direct_token_map_rule(M.grammar, M.actions, report.rule(
+        'R08.6', 'token maps written directly by an action record, for '
+        'the text of slot i, the position of slot i', floor=0))
     g, A, lm = M.grammar, M.actions, M.lexmodel
     report.explanation = (
         'For every production/definition pair the token map that '
